@@ -93,6 +93,28 @@ Theorem C16_pbkw_wrap_op_embeds : forall (P : pw_params) R i header pass params 
   take (pw_salt_len P) blob = s /\ take (pw_nonce_len P) (drop (pw_salt_len P + pw_par_len P) blob) = n /\ j = S (S i).
 Proof. exact pw_wrap_op_embeds. Qed.
 
+(* ---- key generation by rejection sampling (paseto-v3 SecretKey::random): the key returned is the last block
+        drawn, a valid scalar the decoders of both v3 backends accept; a failure of the source at any call of
+        the loop ends it with that failure and no key; only invalid scalars are ever skipped ---- *)
+Theorem C16_v3_generated_key_is_a_draw : forall O R i fuel k j,
+  v3_random O R i fuel = (GenKey k, j) -> i < j /\ R (j - 1) 48 = Some k /\ p384_pk O k <> None.
+Proof. exact v3_random_key_is_a_draw. Qed.
+Theorem C16_v3_generated_key_is_accepted : forall O R i fuel k j,
+  (forall n x, R n 48 = Some x -> length x = 48) ->
+  v3_random O R i fuel = (GenKey k, j) ->
+  v3_decode_secret O k = Ok k /\ lc_decode_secret O k = Ok k.
+Proof. exact v3_random_key_is_accepted. Qed.
+Theorem C16_v3_generation_fails_closed : forall O R i fuel j,
+  v3_random O R i fuel = (GenRngFailed, j) -> i < j /\ R (j - 1) 48 = None.
+Proof. exact v3_random_fail_closed. Qed.
+Theorem C16_v3_generation_skips_only_invalid_scalars : forall O R i fuel out j n x,
+  v3_random O R i fuel = (out, j) -> i <= n -> S n < j -> R n 48 = Some x -> p384_pk O x = None.
+Proof. exact v3_random_skips_only_invalid. Qed.
+
+Print Assumptions C16_v3_generated_key_is_a_draw.
+Print Assumptions C16_v3_generated_key_is_accepted.
+Print Assumptions C16_v3_generation_fails_closed.
+Print Assumptions C16_v3_generation_skips_only_invalid_scalars.
 Print Assumptions C16_local_seal_op_fail_closed.
 Print Assumptions C16_local_seal_op_embeds.
 Print Assumptions C16_consecutive_seals_have_different_nonces.
